@@ -82,4 +82,17 @@ def whyNot (deps : α → List α) (roots : List α) (n : Nat) (out : List α) (
         | some x => some ("unwanted " ++ show_ x)
         | none => if checkOrder deps roots out then none else some "checkOrder rejects"
 
+/-- "a dependency on an unknown buildpack is an error" presupposes that the buildpacks the graph knows are the
+buildpacks of the workspace. `placed`: the buildpacks that exist in the workspace — a directory entry below the
+workspace root that resolves to a directory holding `buildpack.toml`, whether the entry is a directory or a
+symbolic link to one (pairwise distinct ids, each buildpack once); `found`: the nodes of the graph. First reason why
+the node set is not the workspace's (`none` = it is): a buildpack silently dropped, an invented node, a node twice. -/
+def nodeSetWhyNot (placed found : List α) (show_ : α → String) : Option String :=
+  match placed.find? (fun x => !found.contains x) with
+  | some x => some ("buildpack " ++ show_ x ++ " of the workspace is not a node of the graph")
+  | none =>
+    match found.find? (fun x => !placed.contains x) with
+    | some x => some ("node " ++ show_ x ++ " is not a buildpack of the workspace")
+    | none => if found.length = placed.length then none else some "a buildpack is a node more than once"
+
 end CnbVerif.Spec.Topo
